@@ -59,7 +59,9 @@ macro_rules! impl_vec1view_for_ndarray {
 
             #[inline]
             fn try_as_slice(&self) -> Option<&[T]> {
-                self.as_slice_memory_order()
+                // logical order only: a reversed (negative stride) view is contiguous in
+                // memory order but its memory order is not the sequence order
+                self.as_slice()
             }
 
             #[inline]
